@@ -75,14 +75,20 @@ def check_row(job):
     if not np.all(np.isfinite(f)):
         viol.append({"site": "forces:non-finite:" + tag, "detail": {"row": row}})
         return {"id": job["id"], "viol": viol, "n": n}
-    # ---- blocking: the forces must not depend on the memory budget (number of grid blocks the XC loops are cut into);
-    # with a tiny budget every block loop of the gradient code runs with the minimum block size (many blocks)
-    mm = ks.max_memory
+    # ---- blocking: the forces must not depend on how many grid blocks the XC loops of the gradient code are cut into.
+    # The gradient routines floor their memory budget at 2000 MB, so the number of blocks is not reachable through
+    # max_memory; the integrator's own blksize argument is used instead (instance-level wrapper, minimum block size).
+    ni = ks._numint
+    from ciderpress.pyscf.numint import BLKSIZE
+    saved = {}
     try:
-        ks.max_memory = 1
+        for nm in ("block_loop", "extra_block_loop"):
+            if hasattr(ni, nm):
+                orig = getattr(ni, nm)
+                saved[nm] = orig
+                setattr(ni, nm, (lambda o: (lambda *a, **k: o(*a, **dict(k, blksize=4 * BLKSIZE))))(orig))
         g2 = ks.nuc_grad_method()
         g2.grid_response = row["grid_response"]
-        g2.max_memory = 1
         f_blk = g2.kernel()
         n += 1
         if not (np.all(np.isfinite(f_blk)) and np.abs(f_blk - f).max() <= 1e-9 * (1 + np.abs(f).max())):
@@ -91,7 +97,11 @@ def check_row(job):
     except Exception as ex:  # noqa: BLE001
         viol.append({"site": "forces:blocking:%s:%s" % (type(ex).__name__, tag), "detail": {"row": row, "msg": str(ex)[:200]}})
     finally:
-        ks.max_memory = mm
+        for nm in saved:
+            try:
+                delattr(ni, nm)
+            except AttributeError:
+                pass
     tol = 5e-6 if row["grid_response"] else 2e-4
     ssum = np.abs(f.sum(0)).max()
     n += 1
